@@ -38,6 +38,11 @@ class Snapshot:
                                            for name, kind, v in intro.field_values(pm) if isinstance(v, internal.Repeated)}
             except Exception:
                 self.parent = None
+        if self.parent is not None and not isinstance(self.parent, base.RawTokenModel):
+            try:
+                self.primed = intro.public_reads(self.parent)   # reads before the op: every cached view exists when the op runs
+            except Exception:
+                self.primed = None
 
 
 # ---- oracles: each returns a list of (signature, description) ------------------------------------------
@@ -343,7 +348,26 @@ def o_census(root, pre, op, res, extra):
     return [('C14:' + s_, d) for s_, d in commentsx.check_census(root)]
 
 
-ORACLES = {'nonedit': o_nonedit, 'census': o_census, 'inv': o_inv, 'refused': o_refused, 'frame': o_frame, 'reparse': o_reparse, 'nodouble': o_no_double}
+def o_fresh(root, pre, op, res, extra):
+    """What the public attributes of the edited model read is a function of its content, not of its history: every
+    attribute reads the same on the model and on a deep copy of it made now (the copy has seen no history: no cached view,
+    no registered handler, no remembered child)."""
+    pm = pre.parent
+    if pm is None or isinstance(pm, base.RawTokenModel) or pm.token_store is not root.token_store:
+        return []
+    try:
+        twin = copy.deepcopy(pm)
+    except Exception as e:
+        return [(f'fresh:deepcopy-raises:{type(pm).__name__}', repr(e)[:200])]
+    a, b = intro.public_reads(pm), intro.public_reads(twin)
+    for name in a:
+        if a[name] != b.get(name):
+            return [(f'fresh:{type(pm).__name__}.{name}', f'after {op["kind"]} on {type(pm).__name__}: .{name} reads {str(a[name])[:160]} on the edited model '
+                     f'but {str(b.get(name))[:160]} on a deep copy of it')]
+    return []
+
+
+ORACLES = {'fresh': o_fresh, 'nonedit': o_nonedit, 'census': o_census, 'inv': o_inv, 'refused': o_refused, 'frame': o_frame, 'reparse': o_reparse, 'nodouble': o_no_double}
 
 
 def set_lf(lf):
@@ -466,6 +490,8 @@ def _session(ctx, r, root, text, auto_claim, lf, nops, oracles, syntax_preservin
             op = edits.gen_op(r, root, syntax_preserving=syntax_preserving, malformed=malformed, kinds=kinds, focus=focus)
             if op is None:
                 break
+            ctx.current({'text': text, 'auto_claim': auto_claim, 'ops': [_slim(o) for o in ops] + [_slim(op)], 'oracles': list(oracles),
+                         'need_struct': need_struct, 'lf': lf})
             pre = Snapshot(root, op)
             if need_struct:
                 pre.struct = intro.struct(root)
